@@ -22,7 +22,8 @@ PS = CC + "persistence.py"
 TRUSTED = ["machine arithmetic treated as mathematical (real mode)", "A-NUMBA: numba.njit compiles the body with Python/numpy semantics (fastmath re-association ignored)",
            "Sum one-point-update lemma: changing one species' trapped charge changes the total by the difference",
            "np.random.binomial(n, p) returns values in [0, n]", "astropy convolve_fft is a linear convolution with constant fill (IPC: only the kernel weights are proved)",
-           "CDM (charge transfer inefficiency) loops are not under contract yet: see bounded list"]
+           "x ** y = x * x ** (y - 1) and x ** y > 0 for x > 0; 0 < exp(x) <= 1 for x <= 0 (library facts, instantiated)",
+           "CDM docstring parameter ranges: vg > 0, fwc > 0, 0 <= beta <= 1, tr > 0, nt >= 0, sigma >= 0, transfers >= 0"]
 R, C_ = D.ROWS, D.COLS
 G = D.GEN
 
@@ -453,3 +454,127 @@ def persistence_unit(fname, simple):
 
 unit("C15", "persist.simple")(persistence_unit("compute_simple_persistence", True))
 unit("C15", "persist.full")(persistence_unit("compute_persistence", False))
+
+
+# ---- charge transfer inefficiency (CDM): three nested loops, ghost total ----------------------------------------------
+CDMQ = "pyxel/models/charge_transfer/cdm.py"
+YD, XD, KD = z3.Int("ydim"), z3.Int("xdim"), z3.Int("kdim")
+BETA, VG, TT, FWC, VTH = (z3.Real(n) for n in ("beta", "vg", "t_period", "fwc", "vth"))
+TR, NT_, SG = (z3.Function(n, z3.IntSort(), z3.RealSort()) for n in ("tr", "nt", "sigma"))
+PHI0 = z3.Real("PHI0")
+
+CDM_REPLAY = model_replay("""
+from pyxel.models.charge_transfer.cdm import run_cdm_parallel, run_cdm_serial
+rng = np.random.default_rng(1)
+VIOLATED, DETAIL = False, ''
+for fn in (run_cdm_parallel, run_cdm_serial):
+    for trial in range(20):
+        a = rng.choice([0.0, 0.005, 5.0, 300.0, 5e4], size=(6, 5)) * rng.uniform(0.5, 1.5, (6, 5))
+        k = int(rng.integers(1, 4))
+        out = fn(array=a.copy(), beta=float(rng.uniform(0.05, 0.95)), vg=float(rng.uniform(1e-11, 1e-9)), t=float(rng.uniform(1e-4, 1e-2)), fwc=float(rng.uniform(1e4, 1e6)),
+                 vth=1.2e7, tr=rng.uniform(1e-5, 1e-1, k), nt=rng.uniform(0.0, 50.0, k), sigma=rng.uniform(1e-16, 1e-14, k))
+        if out.min() < 0 or out.sum() > a.sum() * (1 + 1e-12) + 1e-9:
+            VIOLATED, DETAIL = True, f'{fn.__name__}: min {out.min()}, total in {a.sum()}, total out {out.sum()}'; break
+    if VIOLATED: break
+""", "transfer never yields negative pixels nor more total charge than it received")
+
+
+def cdm_specs(qual, arr_name, trap_name, outer, mid, inner, idx_of):
+    """Loop contracts of the CDM kernels. State: the frame `array` and the trap occupancy `no`; ghost PHI = sum(array) +
+    sum(no). Invariant of all three loops: every pixel >= 0, every trap occupancy >= 0, PHI <= PHI0. The innermost
+    iteration changes exactly one pixel and one trap slot, and not upward in total (local step)."""
+    def A(ex, fr):
+        return ex.st.cell(fr.locals[arr_name])
+
+    def N(ex, fr):
+        return ex.st.cell(fr.locals[trap_name])
+
+    def inv(ex, fr, k):
+        p0, p1, q0, q1 = z3.Ints("p_r p_c q_a q_b")
+        a, n = A(ex, fr), N(ex, fr)
+        return {"pixels_nonneg": z3.ForAll([p0, p1], z3.Implies(z3.And(p0 >= 0, p0 < YD, p1 >= 0, p1 < XD), to_real(a.elem((p0, p1))) >= 0)),
+                "traps_nonneg": z3.ForAll([q0, q1], z3.Implies(z3.And(q0 >= 0, q0 < z_int(n.shape[0]), q1 >= 0, q1 < KD), to_real(n.elem((q0, q1))) >= 0)),
+                "no_creation": ex.st.ghost["PHI"] <= PHI0,
+                "shapes": z3.And(z_int(a.shape[0]) == YD, z_int(a.shape[1]) == XD, z_int(n.shape[1]) == KD)}
+
+    def hav(ex, fr, k):
+        st = ex.st
+        fa = z3.Function(st.fresh_name("cdm_array"), z3.IntSort(), z3.IntSort(), z3.RealSort())
+        fn = z3.Function(st.fresh_name("cdm_traps"), z3.IntSort(), z3.IntSort(), z3.RealSort())
+        A(ex, fr).elem = lambda ix, fa=fa: VFloat(fa(z_int(ix[0]), z_int(ix[1])))
+        N(ex, fr).elem = lambda ix, fn=fn: VFloat(fn(z_int(ix[0]), z_int(ix[1])))
+        st.ghost["PHI"] = st.fresh_real("phi")
+        st.ghost["CDM_HEAD"] = (fa, fn)
+
+    def mods(ex, fr):
+        return [fr.locals[arr_name].addr, fr.locals[trap_name].addr]
+
+    def hav_inner(ex, fr, k):
+        hav(ex, fr, k)
+        st = ex.st
+        fa, fn = st.ghost["CDM_HEAD"]
+        i_, j_, t_ = idx_of(fr, k)
+        a = fa(i_, j_)
+        # library facts about x ** y on positive bases, instantiated at the pixel of this iteration
+        st.assume(z3.Implies(a > 0, z3.And(upow(a, BETA) == a * upow(a, BETA - 1), upow(a, BETA - 1) > 0, upow(a, 1 - BETA) > 0)))
+        st.ghost["CDM_CELL"] = (i_, j_, t_)
+
+    def after_inner(ex, fr, k):
+        st = ex.st
+        fa, fn = st.ghost["CDM_HEAD"]
+        i_, j_, t_ = st.ghost["CDM_CELL"]
+        trap_ix = (j_, t_) if arr_name == "array" and trap_name == "no" else (i_, t_)
+        a_new, n_new = to_real(A(ex, fr).elem((i_, j_))), to_real(N(ex, fr).elem(trap_ix))
+        a_old, n_old = fa(i_, j_), fn(*trap_ix)
+        p0, p1 = z3.Ints("p_r p_c")
+        st.oblige("cdm.frame[only this pixel]", z3.ForAll([p0, p1], z3.Implies(z3.Or(p0 != i_, p1 != j_), to_real(A(ex, fr).elem((p0, p1))) == fa(p0, p1))), {"replay": CDM_REPLAY})
+        st.oblige("cdm.frame[only this trap slot]", z3.ForAll([p0, p1], z3.Implies(z3.Or(p0 != trap_ix[0], p1 != trap_ix[1]), to_real(N(ex, fr).elem((p0, p1))) == fn(p0, p1))), {"replay": CDM_REPLAY})
+        st.oblige("cdm.local_step[pixel + trap content does not grow]", a_new + n_new <= a_old + n_old, {"replay": CDM_REPLAY})
+        st.oblige("cdm.local_step[pixel is zero or at least 0.01]", z3.Or(a_new == 0, a_new >= z3.RealVal("0.01")), {"replay": CDM_REPLAY})
+        st.ghost["PHI"] = st.ghost["PHI"] - a_old - n_old + a_new + n_new
+    return {(qual, 0): LoopSpec(outer, inv, havoc=hav, modifies=mods, name="cdm.outer"),
+            (qual, 1): LoopSpec(mid, inv, havoc=hav, modifies=mods, name="cdm.traps"),
+            (qual, 2): LoopSpec(inner, inv, havoc=hav_inner, modifies=mods, after_body=after_inner, name="cdm.inner")}
+
+
+def cdm_unit(fname, trap_name, outer, mid, inner, idx_of, extra_kw):
+    def un(u: Unit):
+        fi = u.fn(f"{CDMQ}::{fname}")
+        cfg = Cfg("real")
+        cfg.loops.update(cdm_specs(fi.qualname, "array", trap_name, outer, mid, inner, idx_of))
+        u.internal_replay, u.internal_witness = CDM_REPLAY, {}
+        x, y, q = z3.Real("x"), z3.Real("y"), z3.Int("q")
+        fa0 = z3.Function("cdm_in", z3.IntSort(), z3.IntSort(), z3.RealSort())
+
+        def setup(ex):
+            st = ex.st
+            p0, p1 = z3.Ints("p_r p_c")
+            st.assume(z3.And(YD >= 1, XD >= 1, KD >= 1, BETA >= 0, BETA <= 1, VG > 0, TT >= 0, FWC > 0, VTH >= 0, z3.Int("n_transfers") >= 0))
+            st.assume(z3.ForAll([q], z3.And(TR(q) > 0, NT_(q) >= 0, SG(q) >= 0)))
+            st.assume(z3.ForAll([p0, p1], fa0(p0, p1) >= 0))
+            st.assume(z3.ForAll([x], z3.Implies(x <= 0, z3.And(uexp(x) > 0, uexp(x) <= 1))))     # exp on non-positive arguments
+            st.assume(upow(FWC, BETA) > 0)
+            st.ghost["PHI"] = PHI0
+            arr = st.alloc(HArr((YD, XD), VDtype("float64"), lambda ix: VFloat(fa0(z_int(ix[0]), z_int(ix[1])))))
+            vec = lambda f: st.alloc(HArr((KD,), VDtype("float64"), lambda ix, f=f: VFloat(f(z_int(ix[0])))))
+            kw = {"array": arr, "beta": VFloat(BETA), "vg": VFloat(VG), "t": VFloat(TT), "fwc": VFloat(FWC), "vth": VFloat(VTH), "tr": vec(TR), "nt": vec(NT_), "sigma": vec(SG)}
+            kw.update(extra_kw(ex))
+            return [], kw
+        ps = u.paths(fi, setup, cfg, max_paths=800, label=fname)
+        for p in ps:
+            if p.kind != "return" or not p.ex.is_arr(p.value):
+                u.oblige(p, f"cdm.no_raise[{fname}]", False, {"exc": p.exc_name()}, CDM_REPLAY)
+                continue
+            out = p.st.cell(p.value)
+            p0, p1 = z3.Ints("p_r p_c")
+            u.oblige(p, f"cdm.nonneg[{fname}]", z3.ForAll([p0, p1], z3.Implies(z3.And(p0 >= 0, p0 < YD, p1 >= 0, p1 < XD), to_real(out.elem((p0, p1))) >= 0)), {}, CDM_REPLAY)
+            u.oblige(p, f"cdm.no_creation[{fname}]", p.st.ghost["PHI"] <= PHI0, {}, CDM_REPLAY)
+        u.cover(f"cdm.cover[{fname}]", ps, lambda p: p.kind == "return")
+    return un
+
+
+unit("C15", "cdm.parallel")(cdm_unit("run_cdm_parallel", "no", "i in range(0, ydim)", "k in range(kdim_p)", "j in range(xdim)",
+                                      lambda fr, k: (z_int(int_of(fr.locals["i"])), k, z_int(int_of(fr.locals["k"]))),
+                                      lambda ex: {"charge_injection": VBool(z3.Bool("charge_injection")), "chg_inj_parallel_transfers": VInt(z3.Int("n_transfers"))}))
+unit("C15", "cdm.serial")(cdm_unit("run_cdm_serial", "sno", "j in range(0, xdim)", "k in range(kdim_s)", "i in range(ydim)",
+                                    lambda fr, k: (k, z_int(int_of(fr.locals["j"])), z_int(int_of(fr.locals["k"]))), lambda ex: {}))
